@@ -106,6 +106,12 @@ def lifecycle_descs(tier, seed, hib_values=(False, True), objs=("twofunnel", "pl
     for j, eng in enumerate([("SEA", "DE"), ("DE", "SEA", "CMAf"), ("SHADE", "GA")]):
         out.append(("bounded", dict(engines=list(eng), gens=1, Mh=5, hib=False, seed=s + j, choices="GLS", lsc=[{"kind": "steadiness", "n": 2, "dev": 0.0}] * len(eng),
                                     gsc={"kind": "horizon"}, maximize=bool(j % 2), obj="tiny_offset", sprout={"kind": "scripted", "L": 2, "default": 1})))
+    # one-dimensional and five-dimensional problems; MWEA election group as large as the population
+    for j, (eng, box) in enumerate([(("SEA", "DE"), "B_1d"), (("DE", "SHADE", "LOC"), "B_1d"), (("LHS", "GA"), "B_1d"), (("SEA", "CMAf"), "B_5d"), (("SHADE", "CMAw", "DE"), "B_5d"),
+                                    (("MWEA", "SEAX"), "B_5d"), (("MWEA", "DE"), "B_asym")]):
+        out.append(("bounded", dict(engines=list(eng), gens=1 + j % 2, Mh=4, hib=bool(j % 2), seed=s + j, choices="GLS", lsc=[None] + [{"kind": "metaepoch", "m": 2}] * (len(eng) - 1),
+                                    gsc={"kind": "horizon"}, maximize=bool(j % 2), obj=("twofunnel", "sphere_in", "plateau")[j % 3], box=box, mwea_group=6 if box == "B_asym" else 4,
+                                    sprout={"kind": "scripted", "L": 2, "default": 1})))
     # middle-level demes that stop when all their children have stopped, several siblings per level
     for j, eng in enumerate([("SEA", "DE", "CMAf"), ("DE", "SEA", "SHADE"), ("LHS", "GA", "DE")]):
         for hib in hib_values:
